@@ -137,12 +137,15 @@ def check_grid(m):
     txt = grid_str(m)
     try:
         s = Strop(txt)
+        insts = list(s.instances())
     except AssertionError:
         return "constructor_accepts_every_binary_grid", None
+    except Exception as e:  # noqa  (after seed C15-14: rows without any cell made the constructor raise ValueError) any exception of the code under test on a binary grid
+        return "constructor_accepts_every_binary_grid", dict(raised=f"{type(e).__name__}: {e}")
     want = oracle_trunks(m) if ones(m) else []
     if s.is_strop != bool(want):
         return "reports_a_decomposition_exactly_when_one_exists", dict(is_strop=s.is_strop, oracle_trunks=want[:3])
-    for inst in s.instances():
+    for inst in insts:
         bad = check_instance(m, inst)
         if bad:
             return bad, dict(instance=str(inst))
@@ -237,8 +240,12 @@ def row_interval_exact(replay=None):
     for n in range(0, 11):
         for bits in itertools.product([False, True], repeat=n):
             evals += 1
-            r = Strop._row_interval(list(bits))
             idx = [i for i, b in enumerate(bits) if b]
+            try:
+                r = Strop._row_interval(list(bits))
+            except Exception as e:  # noqa
+                failures.append(dict(clause="row_interval_is_the_single_run_of_ones_or_empty", row=bits, observed=f"{type(e).__name__}: {e}"))
+                continue
             want = (idx[0], idx[-1]) if idx and idx[-1] - idx[0] + 1 == len(idx) else (-1, -1)
             if (r.low, r.high) != want:
                 failures.append(dict(clause="row_interval_is_the_single_run_of_ones_or_empty", row=bits, observed=(r.low, r.high)))
